@@ -39,7 +39,8 @@ vars == <<stk, fin, jd, fam>>
 \* exponent literals, brackets, enabled rule-breaking constructors, token corruptions, extra styles
 Fam(ml, mo, ms, v, n, f, t, g, e, w, m, c, s) ==
   [ML |-> ml, MO |-> mo, MS |-> ms, V |-> v, N |-> n, F |-> f, T |-> t, G |-> g, E |-> e, W |-> w, M |-> m, C |-> c, S |-> s,
-   VO |-> FALSE]      \* VO: derive only trees that follow the documented rules (deep valid trees by random walks)
+   VO |-> FALSE,      \* VO: derive only trees that follow the documented rules (deep valid trees by random walks)
+   PK |-> FALSE]      \* PK: do not build on top of a subtree that violates a rule (one violation per tree, at its root)
 MaxLeaves == Fams[fam].ML
 MaxOps == Fams[fam].MO
 MaxStack == Fams[fam].MS
@@ -54,6 +55,7 @@ Muts == Fams[fam].M
 Cors == Fams[fam].C
 Styles == Fams[fam].S
 ValidOnly == Fams[fam].VO
+PruneKids == Fams[fam].PK
 
 \* ================================================================== part 1: the algorithm
 XAt(a, idx) == a.v[Flat(idx, a.sh) + 1]
@@ -190,7 +192,8 @@ ProjArr(a) == [sh |-> a.sh, v |-> [k \in 1..Len(a.v) |-> <<a.v[k][1][1], a.v[k][
 NoArr == [sh |-> <<>>, v |-> <<>>]
 RECURSIVE Ops(_)
 Ops(e) == {e.op} \cup (IF e.op \in {"call", "var", "num"} THEN {e.nm} ELSE {}) \cup UNION {Ops(e.kids[p]) : p \in 1..Len(e.kids)}
-NoCase == [t |-> <<>>, ok |-> "none", why |-> "", guess |-> <<>>, fr |-> <<>>, arr |-> NoArr, rev |-> NoArr, ops |-> {}, no |-> 0, st |-> 0, fam |-> 0]
+NoCase == [t |-> <<>>, ok |-> "none", why |-> "", guess |-> <<>>, fr |-> <<>>, arr |-> NoArr, rev |-> NoArr, ops |-> {}, no |-> 0, st |-> 0, fam |-> 0,
+           pix |-> <<>>, psm |-> {}]
 NoJd == [c |-> FALSE, verdict |-> TRUE, free |-> TRUE, meaning |-> TRUE, case |-> NoCase]
 Judge(ent) ==
   LET e == ent.e
@@ -218,10 +221,14 @@ Judge(ent) ==
                 fr |-> IF valid THEN fr ELSE <<>>,
                 arr |-> IF usable THEN ProjArr(sorted) ELSE NoArr,
                 rev |-> IF usable THEN ProjArr(rev) ELSE NoArr,
-                ops |-> Ops(e), no |-> ent.no, st |-> 0, fam |-> 0]]
+                ops |-> Ops(e), no |-> ent.no, st |-> 0, fam |-> 0,
+                \* what the algorithm returns besides the array: its index string (order of the first term) and summed set
+                pix |-> IF usable THEN r.ix ELSE <<>>, psm |-> IF usable THEN r.sm ELSE {}]]
 \* ================================================================== part 2: the derivation machine
 \* stack entry: tree, syntactic rank (1 item, 2 power, 3 term, 4 fraction, 5 sum), leaves, productions
-Ent(e, r, nl, no) == [e |-> e, r |-> r, nl |-> nl, no |-> no]
+\* v: the tree follows the rules (not computed where nothing depends on it: every candidate successor of a random walk would pay)
+Ent(e, r, nl, no) == [e |-> e, r |-> r, nl |-> nl, no |-> no,
+                      v |-> IF ValidOnly \/ PruneKids \/ ~Lazy THEN TLCEval(Chk(e).why = "") ELSE TRUE]
 L == Len(stk)
 Top == stk[L]
 Sec == stk[L - 1]
@@ -229,7 +236,9 @@ RECURSIVE SumField(_, _)
 SumField(f, n) == IF n = 0 THEN 0 ELSE f[n] + SumField(f, n - 1)
 NL == SumField([p \in 1..L |-> stk[p].nl], L)
 NO == SumField([p \in 1..L |-> stk[p].no], L)
-Admit(x) == ValidOnly => Chk(x.e).why = ""
+Admit(x) == ValidOnly => x.v
+Grow1 == PruneKids => Top.v                     \* guards of the productions that consume one / two entries
+Grow2 == PruneKids => (Top.v /\ Sec.v)
 Push(x) == stk' = Append(stk, x) /\ Admit(x)
 Rep1(x) == stk' = Append(SubSeq(stk, 1, L - 1), x) /\ Admit(x)
 Rep2(x) == stk' = Append(SubSeq(stk, 1, L - 2), x) /\ Admit(x)
@@ -250,39 +259,39 @@ PBadVar == /\ CanLeaf
               \/ /\ "index-symbol" \in Muts
                  /\ \E nm \in VarSet : Len(VarTab[nm].sh) = 1 /\ Push(Ent(VarNd(nm, <<"$">>), 1, 1, 0))
            /\ UNCHANGED fin
-PWrap == /\ CanOp /\ L >= 1
+PWrap == /\ CanOp /\ L >= 1 /\ Grow1
          /\ \E w \in Wraps : Rep1(Ent(Nd(w, "", <<>>, <<Top.e>>, <<>>), 1, Top.nl, Top.no + 1))
          /\ UNCHANGED fin
-PCall == /\ CanOp /\ L >= 1
+PCall == /\ CanOp /\ L >= 1 /\ Grow1
          /\ \E f \in FuncSet : \E ix \in [1..Len(FuncTab[f].gen) -> GToks] :
                 Rep1(Ent(Nd("call", f, ix, <<Top.e>>, <<>>), 1, Top.nl, Top.no + 1))
          /\ UNCHANGED fin
-PBadCall == /\ CanOp /\ L >= 1
+PBadCall == /\ CanOp /\ L >= 1 /\ Grow1
             /\ \/ /\ "unknown" \in Muts /\ Rep1(Ent(Nd("call", "nofunc", <<>>, <<Top.e>>, <<>>), 1, Top.nl, Top.no + 1))
                \/ /\ "index-count" \in Muts
                   /\ \E f \in FuncSet : \E d \in {-1, 1} : Len(FuncTab[f].gen) + d >= 0
                         /\ \E ix \in [1..(Len(FuncTab[f].gen) + d) -> (GToks \cap {"i", "j"})] :
                               Rep1(Ent(Nd("call", f, ix, <<Top.e>>, <<>>), 1, Top.nl, Top.no + 1))
             /\ UNCHANGED fin
-PPowInt == /\ CanOp /\ L >= 1 /\ (Top.r = 1 \/ (Top.r = 2 /\ "repeated-power" \in Muts))
+PPowInt == /\ CanOp /\ L >= 1 /\ Grow1 /\ (Top.r = 1 \/ (Top.r = 2 /\ "repeated-power" \in Muts))
            /\ \E x \in IntExps : Rep1(Ent(Nd("pow", "int", <<>>, <<Top.e, NumNd(x)>>, <<>>), 2, Top.nl, Top.no + 1))
            /\ UNCHANGED fin
-PPowScoped == /\ CanOp /\ L >= 2 /\ Sec.r = 1
+PPowScoped == /\ CanOp /\ L >= 2 /\ Grow2 /\ Sec.r = 1
               /\ Rep2(Ent(Nd("pow", "scoped", <<>>, <<Sec.e, Top.e>>, <<>>), 2, Sec.nl + Top.nl, Sec.no + Top.no + 1))
               /\ UNCHANGED fin
 \* juxtaposition: a term is extended on the right
-PTerm == /\ CanOp /\ L >= 2 /\ Sec.r <= 3 /\ Top.r <= 2
+PTerm == /\ CanOp /\ L >= 2 /\ Grow2 /\ Sec.r <= 3 /\ Top.r <= 2
          /\ (IsNumItem(Top.e) => "number-position" \in Muts)
          /\ Rep2(Ent(Nd("term", "", <<>>, IF Sec.r = 3 THEN Append(Sec.e.kids, Top.e) ELSE <<Sec.e, Top.e>>, <<>>), 3,
                      Sec.nl + Top.nl, Sec.no + Top.no + (IF Sec.r = 3 THEN 0 ELSE 1)))
          /\ UNCHANGED fin
-PFrac == /\ CanOp /\ L >= 2 /\ Top.r <= 3 /\ (Sec.r <= 3 \/ (Sec.r = 4 /\ "repeated-fraction" \in Muts))
+PFrac == /\ CanOp /\ L >= 2 /\ Grow2 /\ Top.r <= 3 /\ (Sec.r <= 3 \/ (Sec.r = 4 /\ "repeated-fraction" \in Muts))
          /\ Rep2(Ent(Nd("frac", "", <<>>, <<Sec.e, Top.e>>, <<>>), 4, Sec.nl + Top.nl, Sec.no + Top.no + 1))
          /\ UNCHANGED fin
-PNeg == /\ CanOp /\ L >= 1 /\ Top.r <= 4
+PNeg == /\ CanOp /\ L >= 1 /\ Grow1 /\ Top.r <= 4
         /\ Rep1(Ent(Nd("sum", "", <<>>, <<Top.e>>, <<"-">>), 5, Top.nl, Top.no + 1))
         /\ UNCHANGED fin
-PSum == /\ CanOp /\ L >= 2 /\ Top.r <= 4
+PSum == /\ CanOp /\ L >= 2 /\ Grow2 /\ Top.r <= 4
         /\ \E s \in {"+", "-"} \cup (IF "misplaced-minus" \in Muts THEN {"+-"} ELSE {}) :
               Rep2(Ent(Nd("sum", "", <<>>, IF Sec.r = 5 THEN Append(Sec.e.kids, Top.e) ELSE <<Sec.e, Top.e>>,
                           IF Sec.r = 5 THEN Append(Sec.e.sg, s) ELSE <<"+", s>>), 5,
@@ -328,13 +337,13 @@ Corrupt(kind, t, p) ==
 Refinish(j, e, f) ==
   IF f.ck = "" THEN [j EXCEPT !.case.t = RenderTop(e, f.st), !.case.st = f.st]
   ELSE [j EXCEPT !.case.t = Corrupt(f.ck, Render(e, 0), f.cp), !.case.ok = "bad", !.case.why = f.ck,
-                 !.case.fr = <<>>, !.case.arr = NoArr, !.case.rev = NoArr]
+                 !.case.fr = <<>>, !.case.arr = NoArr, !.case.rev = NoArr, !.case.pix = <<>>, !.case.psm = {}]
 
 \* random walks: only the first and the last position of a kind (keeps finishing from dominating the choice)
 FewIfLazy(S) == IF Lazy /\ S # {} THEN {CHOOSE p \in S : \A q \in S : p <= q, CHOOSE p \in S : \A q \in S : p >= q} ELSE S
 PFinish == /\ Open /\ L = 1
            /\ \/ \E st \in Styles : fin' = [done |-> TRUE, st |-> st, ck |-> "", cp |-> 0]
-              \/ \E k \in Cors : \E p \in FewIfLazy(CorPositions(k, CanonToks)) : fin' = [done |-> TRUE, st |-> 0, ck |-> k, cp |-> p]
+              \/ Top.v /\ jd.case.ok # "bad" /\ \E k \in Cors : \E p \in FewIfLazy(CorPositions(k, CanonToks)) : fin' = [done |-> TRUE, st |-> 0, ck |-> k, cp |-> p]
            /\ UNCHANGED stk
 
 Init == stk = <<>> /\ fin = [done |-> FALSE, st |-> 0, ck |-> "", cp |-> 0] /\ jd = NoJd /\ fam \in 1..Len(Fams)
